@@ -282,7 +282,7 @@ class Lifecycle(BaseEngine):
         if idx % 8 == 5:
             # socket ports are port types too: one run in eight is a history of the network world (engine netsim),
             # judged by that world's rules for iteration, closing and blocking calls
-            plan = self._netsim().gen(prop, seed, idx, tier)
+            plan = self._netsim().gen(prop, seed, idx // 8, tier)      # every residue of the network world's own cycle
             plan['addresses'] = False
             return plan
         rng = rng_for(prop, seed, idx, 'plan')
